@@ -43,7 +43,11 @@ fn init_input_thread() -> Receiver<String> {
     let (tx, rx) = mpsc::channel::<String>();
     thread::spawn(move || loop {
         let mut buffer = String::new();
-        stdin().read_line(&mut buffer).unwrap();
+        //End of input is a request to quit
+        if stdin().read_line(&mut buffer).unwrap() == 0 {
+            tx.send("quit".to_string()).unwrap_or_default();
+            break;
+        }
         tx.send(buffer).unwrap_or_default();
     });
     rx
